@@ -168,6 +168,7 @@ class Inv:
     joiner: Optional[dict] = None
     result_ty: Optional[tuple] = None
     notranspose: bool = False        # sync try macro with transpose_results(false): steps hand over UNWRAPPED values
+    ref_step_pre: dict = field(default_factory=dict)   # step -> statements of the reference placed in front of the step
 
 
 @dataclass
@@ -179,6 +180,7 @@ class EvMeta:
     branch: int
     step: int
     snap: bool = False
+    eager: bool = False
 
 
 class Ctx:
@@ -1002,7 +1004,13 @@ def gen_branch(ctx, inv, index, depth, acts_per_step, same_type=None):
     steps = []
     types = []
     if inv.is_async:
+        mark_evs = len(ctx.evs)
         init, X, pre = async_initial(ctx, inv, t0)
+        if inv.inv == 0 and not inv.joiner:
+            # the initial value and the synchronous prefix are evaluated while the branch's chain is built
+            for e in ctx.evs[mark_evs:]:
+                if e.inv == inv.inv and e.branch == index:
+                    e.eager = True
         cur = X
         for k in range(depth):
             ctx.cur_step = k
@@ -1344,8 +1352,55 @@ def gen_invocation(ctx, kind, is_try, is_async, profile_override=None, same_type
     return inv
 
 
+USIZE_T = ('Usize',)
+
+
+def gen_copy_branch(ctx, inv, depth):
+    """branch 0 `let nI_0 = w::init::<usize>(e) ~-> w::m(e) ..`: a named branch whose value is Copy, so that ordinary (non-block)
+    operands of OTHER branches may read the name (they see the previous step's result, like block captures do)"""
+    ctx.cur_inv, ctx.cur_branch, ctx.cur_step = inv.inv, 0, 0
+    t = Opt(USIZE) if inv.is_try else USIZE
+    e = ctx.ev('Init', inv.is_try)
+    init = Operand('w::init::<%s>(%d)' % (rs(t), e))
+    steps, types = [], []
+    for k in range(depth):
+        ctx.cur_step = k
+        acts = []
+        if k > 0 or ctx.chance(0.5):
+            e = ctx.ev('Call', False)
+            acts.append(Act('|>', 'method', 'map', [Operand('w::inc(%d)' % e)]) if inv.is_try else Act('->', 'then', operands=[Operand('w::inc(%d)' % e)]))
+        if k > 0:
+            acts[0].deferred = True
+        steps.append(acts)
+        types.append(t)
+    return Branch('n%d_0' % inv.inv, False, init, steps, types, 0)
+
+
+def add_name_reads(ctx, inv):
+    """append `-> w::seen(e, <name of branch 0>)` to steps >= 1 of the other branches"""
+    nm = inv.branches[0].name
+    n = 0
+    for b in inv.branches[1:]:
+        for k in range(1, len(b.steps)):
+            if not is_val(b.types[k]) or not ctx.chance(0.6):
+                continue
+            ctx.cur_inv, ctx.cur_branch, ctx.cur_step = inv.inv, b.index, k
+            e = ctx.ev('Call', False)
+            close_tail(b.steps[k])
+            b.steps[k].append(Act('->', 'then', operands=[Operand('w::seen(%d, %s)' % (e, nm), ref_expr='w::seen(%d, seen%d)' % (e, e))]))
+            inv.ref_step_pre.setdefault(k, []).append('let seen%d = %s;' % (e, nm))
+            n += 1
+    return n
+
+
 def _gen_invocation_body(ctx, inv, nb, depths, acts_per_step, same):
-    for i in range(nb):
+    start = 0
+    copy_named = (inv.inv == 0 and not inv.is_async and nb >= 2 and not inv.notranspose and same is None and (not inv.is_try or inv.flavor == 'opt')
+                  and max(depths) >= 2 and ctx.chance(ctx.p.get('nameread', 0.04)))
+    if copy_named:
+        inv.branches.append(gen_copy_branch(ctx, inv, depths[0]))
+        start = 1
+    for i in range(start, nb):
         for attempt in range(40):
             mark_ev, mark_evs, mark_caps, mark_inv = ctx.next_ev, len(ctx.evs), len(ctx.caps), len(ctx.invs)
             mark_next_inv = ctx.next_inv
@@ -1368,6 +1423,8 @@ def _gen_invocation_body(ctx, inv, nb, depths, acts_per_step, same):
                 ctx.is_async = inv.is_async
         else:
             raise RuntimeError('could not generate branch')
+    if copy_named:
+        add_name_reads(ctx, inv)
     inv.handler = gen_handler(ctx, inv, nb)
 
 
@@ -1470,6 +1527,8 @@ def ref_expr(inv, top=False):
     A = inv.is_async
     for k in range(maxd):
         active = [b for b in inv.branches if len(b.steps) > k]
+        for stmt in inv.ref_step_pre.get(k, []):
+            L.append(stmt)
         # captures: branch-then-position order, evaluated on the caller before the step
         for b in active:
             ops = []
@@ -1658,8 +1717,8 @@ class Program:
                 inv.inv, kind, len(inv.branches), depths, hk, 'true' if inv.joiner else 'false'))
         evs = []
         for e in self.ctx.evs:
-            evs.append('EvMeta { ev: %d, kind: EvKind::%s, failable: %s, inv: %d, branch: %d, step: %d, snap: %s }' % (
-                e.ev, e.kind, 'true' if e.failable else 'false', e.inv, e.branch, e.step, 'true' if e.snap else 'false'))
+            evs.append('EvMeta { ev: %d, kind: EvKind::%s, failable: %s, inv: %d, branch: %d, step: %d, snap: %s, eager: %s }' % (
+                e.ev, e.kind, 'true' if e.failable else 'false', e.inv, e.branch, e.step, 'true' if e.snap else 'false', 'true' if e.eager else 'false'))
         out.append('// @meta %d' % P)
         out.append('pub static P%d: Prog = Prog {\n    id: %d, slice: %s,\n    text: %s,\n    runs: &[%s],\n    reference: %s,\n    invs: &[%s],\n    evs: &[%s],\n    size: %d, anchor: %s,\n};' % (
             P, P, rust_str(self.slice), rust_str(self.text()), ', '.join(runs), reff, ',\n        '.join(invs), ',\n        '.join(evs), self.size(),
@@ -2113,6 +2172,15 @@ def slice_programs(slice_name, tier, master_seed, base_id):
                     j = text.find('~')
                     return j >= 0 and ('{ w::cap(' in text[j:] or '{ w::snap' in text[j:])
                 add(p, fam, 'sk-single-%s' % (dp,), require=req1)
+    if slice_name == 'steps':
+        # an ORDINARY (non-block) operand of another branch reads the `let` name of a Copy-valued branch 0 (sync families)
+        for fam in [f for f in fams if f[0] == 'sync']:
+            for dp in [(2, 2), (3, 2, 3), (1, 3), (3, 3, 2, 2)]:
+                p = dict(prof)
+                p['depth_profile'] = (lambda d: (lambda rng, nb: list(d)))(dp)
+                p['nameread'] = 1.0
+                p['nest'] = 0.0
+                add(p, fam, 'sk-nameread-%s' % (dp,), require='w::seen(')
     if slice_name == 'steps':
         # many steps (nine and more: two-digit step indices), alone and next to short branches
         for fam in fams:
